@@ -280,6 +280,7 @@ class _swap(Contract):
     def ensures(c):
         had = o_is_some(f(c.old, "_temp_handle"))
         return [("primary_is_temporary_contents", z3.Implies(had, z3.And(same(f(c, "disk"), _swap._new(c)), l_len(f(c, "wbuf")) == 0, f(c, "h_open"), f(c, "_handle") == PRIMARY))),
+                ("reopened_with_the_storage_format", z3.Implies(had, f(c, "h_same_format"))),  # same path, mode, encoding and newline as the constructor's open (C04/C05: CR and LF inside cells survive)
                 ("no_swap_file_left", z3.Implies(z3.Not(FAULT(c)), z3.Not(f(c, "staged_exists")))),
                 ("nothing_without_temp", z3.Implies(z3.Not(had), unchanged(c, *PRIM_FIELDS)))]
 
@@ -296,3 +297,14 @@ class _close(Contract):
     @staticmethod
     def ensures(c):
         return [("file_holds_contents", z3.And(same(f(c, "disk"), old_view(c)), l_len(f(c, "wbuf")) == 0, z3.Not(f(c, "h_open"))))]
+
+
+# every other method keeps the live handle (and so its format): stated once for all of them
+def _keep_format(con):
+    orig = con.ensures
+    con.ensures = staticmethod(lambda c, orig=orig: list(orig(c)) + [("handle_format_kept", f(c, "h_same_format") == f(c.old, "h_same_format"))])
+
+
+for _q, _con in list(S.REGISTRY.items()):
+    if _q.startswith(_CS) and _q != _CS + "_swap_temp_with_primary" and "h_same_format" in getattr(_con, "modifies", ()):
+        _keep_format(_con)
